@@ -211,6 +211,9 @@ func (w *World) judgeItem(it *gossipItem, quiet bool, lossy bool, prop string) {
 			continue
 		}
 		cause := "item-not-delivered-to-every-node"
+		if w.Cfg.CtxCancelOnReturn && w.Faults["ctx-cancel"] > 0 {
+			cause = "forward-lost-to-cancelled-request-context"
+		}
 		if it.dependent {
 			// did a node on the way admit it through the orphan retry (which never forwards)?
 			for _, o := range w.Nodes {
@@ -333,6 +336,10 @@ func init() {
 		}
 		if seed%6 == 0 {
 			cfg.K = 1 // dependent items in flight (separate scenario class)
+		}
+		if seed%6 == 3 {
+			// request contexts behave as under grpc-go: cancelled as soon as the handler returns
+			cfg.CtxCancelOnReturn = true
 		}
 		return &Plan{Scenario: "gossip", Cfg: cfg}
 	}
